@@ -664,7 +664,7 @@ func main() {
 	env, rep := vh.Parse("C20")
 	rng := vh.NewRng(env.Seed)
 	rep.Rule = "a case is one ordered pair (a,b) inside a pool of 4-8 related values (same type / mixed types / mutants of one tree: " +
-		"reordered or replaced map keys, changed leaves, nil vs empty payloads, NaNs / a value and its decoding / one value of every type built from the same content (all ordered type pairs) / payloads that are windows of one shared backing array with their independent copies / containers built through mutation histories next to plainly built twins / containers of 1..1000 minimal-size elements (null, empty text / blob / array, decimal 0) alone, nested and as the last field, decoded from an exact-size buffer / chains of neighbouring representable numbers and offsets around 1e-6 for every numeric type, bare and inside arrays, lists and maps); laws are evaluated on all pairs and triples of a pool; " +
+		"reordered or replaced map keys, changed leaves, nil vs empty payloads, NaNs / a value and its decoding / one value of every type built from the same content (all ordered type pairs) / payloads that are windows of one shared backing array with their independent copies / containers built through mutation histories next to plainly built twins / containers of 1..1000 minimal-size elements (null, empty text / blob / array, decimal 0) alone, nested and as the last field, decoded from an exact-size buffer / every construction route (zero values of the structs, payload fields assigned to nil / short / long slices) / containers of 32767 … 70000 entries against their decoding / chains of neighbouring representable numbers and offsets around 1e-6 for every numeric type, bare and inside arrays, lists and maps); laws are evaluated on all pairs and triples of a pool; " +
 		"non-trivial = a and b are not both null; distinct by the two one-line forms"
 
 	var pools []pool
@@ -773,6 +773,7 @@ func main() {
 		pools = append(pools, historyPools(rng.Fork(), env.Thorough)...)
 		pools = append(pools, nearPools(rng.Fork(), env.Thorough)...)
 		pools = append(pools, minimalPools()...)
+		pools = append(pools, routePools()...)
 	}
 
 	// ---- model
@@ -1002,9 +1003,12 @@ func main() {
 			}
 			// decode law (on the implementation object graph)
 			var e, okd bool
-			if p.gos != nil {
+			if p.vs[i].HasRawIP() {
+				// an address of another length than four cannot round-trip (the reader takes four bytes): laws of Equals / CompareTo only
+				e, okd = true, true
+			} else if p.gos != nil {
 				e, okd = decodeEqG(p.gos[i])
-			} else {
+			} else if !p.vs[i].HasRawIP() {
 				e, okd = decodeEq(p.vs[i])
 			}
 			if okd && !e {
@@ -1106,6 +1110,11 @@ func main() {
 				}
 			}
 		}
+	}
+
+	if env.Replay == "" {
+		zeroStructProbe(rep)
+		largeStage(rep, env.Thorough)
 	}
 
 	// ---- known findings: replay the witnesses of the recorded quirks on the implementation
